@@ -51,3 +51,17 @@ fn c17_witness_controls() {
     assert!(by_class("##.ad", "ads").is_empty());
     assert!(by_id("##.ad", "ad").is_empty());
 }
+
+/// OBL C17.witness.lookup_excepted_simple_keeps_complex
+#[test]
+fn c17_lookup_excepted_simple_keeps_complex() {
+    // "excluding any selector in the exception set": only that selector - the compound rules under the same name stay
+    let e = Engine::from_rules(["###X", "###X > .ad", "##.c", "##.c + div"], ParseOptions::default());
+    let exc: HashSet<String> = ["#X".to_string(), ".c".to_string()].into_iter().collect();
+    let mut got = e.hidden_class_id_selectors(["c"], ["X"], &exc);
+    got.sort();
+    assert_eq!(got, vec!["#X > .ad".to_string(), ".c + div".to_string()]);
+    let mut all = e.hidden_class_id_selectors(["c"], ["X"], &HashSet::new());
+    all.sort();
+    assert_eq!(all, vec!["#X".to_string(), "#X > .ad".to_string(), ".c".to_string(), ".c + div".to_string()]);
+}
